@@ -47,8 +47,12 @@ Chk(cond, r, what) == cond \/ Say("fail", r, what, r.target)
 Accepted(r) == r.status >= 200 /\ r.status < 300
 
 \* is the call valid?  (pre-state = the unprimed variables)
+\* text with a byte that is no valid UTF-8 ("<ff>" in the schedules) cannot be kept in the state file
+Clean(s) == ~\E i \in 1 .. (Len(s) - 3) : SubSeq(s, i, i + 3) = "<ff>"
+CleanEv(ev) == Clean(ev.name) /\ Clean(ev.new) /\ Clean(ev.color) /\ Clean(ev.what)
 ExpectOK(r) ==
     LET ev == r.ev IN
+    CleanEv(ev) /\
     CASE ev.a = "AddTag"   -> ev.name # "" /\ ev.color # "" /\ PrefixOf(ev.name) # "" /\ Len(ev.name) > Len(PrefixOf(ev.name))
                               /\ AddTagOK(ev.name, DefOf(ev.def))
       [] ev.a = "DelTag"   -> DelTagOK(ev.name)
